@@ -177,7 +177,16 @@ func Play(r *rand.Rand, s *Scenario, o PlayOpts, rec *Recorder) (blocks []BlockR
 		resetDone := false
 		for i := 0; i < len(evs); i++ {
 			ev := evs[i]
-			if o.ResetAfter > 0 && !resetDone && len(done) == o.ResetAfter && in.Store.GetEpoch() == ep.Epoch {
+			adaptive := false
+			if o.ResetAfter < 0 && !resetDone && in.Store.GetLastDecidedFrame() == 0 {
+				// as late as possible before the first decision of the epoch: roots of frame 3 exist, nothing is decided yet
+				for _, d := range done {
+					if d.Frame >= 3 {
+						adaptive = true
+					}
+				}
+			}
+			if (adaptive || (o.ResetAfter > 0 && len(done) == o.ResetAfter)) && !resetDone && in.Store.GetEpoch() == ep.Epoch {
 				// the application re-synchronises: Reset to the epoch it is in, then the same events again
 				resetDone = true
 				if err, _ := guarded(func() error { return in.ResetTo(ep.Epoch, buildVals(ep.Vals)) }); err != nil {
